@@ -1086,8 +1086,11 @@ func (f *fgen) stmt() {
 		case k < 45:
 			f.stage2Stmt()
 			return
-		case k < 47 && !deep:
+		case k < 46 && !deep:
 			f.constIdiom()
+			return
+		case k < 47:
+			f.redeclIdiom()
 			return
 		default: // multi-assign / swap
 			a := f.pickVar(false, func(v *vr) bool { return v.t == g.tInt && !v.readonly })
@@ -1942,6 +1945,128 @@ func (f *fgen) constIdiom() {
 		f.line("}")
 	}
 	f.line("emit(%d, int(%s))", g.pick(9), v.name)
+}
+
+// redeclIdiom: `x, fresh := <empty / sparse / partially keyed literal>, e` where x is an already
+// declared struct or array variable holding non-zero values (sometimes address-taken): the literal
+// must replace the whole old value
+func (f *fgen) redeclIdiom() {
+	g := f.g
+	g.Feat["redeclare-literal"]++
+	// the redeclared variable must be declared in the scope the statement is emitted in
+	var t *ty
+	if g.chance(50) {
+		t = g.structs[g.pick(len(g.structs))]
+	} else {
+		t = g.arrayOf(g.tInt, 2+g.pick(3))
+	}
+	v := &vr{name: f.fresh("w"), t: t}
+	// fill with non-zero values
+	if t.k == tArray {
+		var es []string
+		for i := 0; i < t.n; i++ {
+			es = append(es, fmt.Sprintf("%s + %d", f.nonConstInt(0), 1+g.pick(50)))
+		}
+		f.line("%s := %s{%s}", v.name, t.name, strings.Join(es, ", "))
+	} else {
+		var es []string
+		for _, fl := range t.fields {
+			switch fl.t.k {
+			case tInt:
+				es = append(es, fmt.Sprintf("%s: %s(%d)", fl.name, fl.t.name, 1+g.pick(100)))
+			case tString:
+				es = append(es, fl.name+`: "old"`)
+			case tBool:
+				es = append(es, fl.name+": true")
+			case tArray:
+				es = append(es, fmt.Sprintf("%s: %s{%d, %d}", fl.name, fl.t.name, 1+g.pick(9), 1+g.pick(9)))
+			case tStruct:
+				es = append(es, fmt.Sprintf("%s: %s", fl.name, f.fullLit(fl.t)))
+			case tPtr:
+				es = append(es, fl.name+": new(int)")
+			}
+		}
+		f.line("%s := %s{%s}", v.name, t.name, strings.Join(es, ", "))
+	}
+	f.line("_ = %s", v.name)
+	switch g.pick(4) {
+	case 0: // lives in memory: address taken (a later poke() may change it: not a plain operand)
+		v.unstable = true
+		if t.k == tArray {
+			f.line("esc(&%s[0])", v.name)
+		} else if hasField(t, g.tInt) {
+			f.line("esc(&%s.%s)", v.name, fieldOf(g, t, g.tInt))
+		}
+	case 1:
+		f.line("emitb(%d, %s == %s{})", g.pick(9), v.name, t.name)
+	}
+	// the redeclaration
+	var lit string
+	if t.k == tArray {
+		switch g.pick(3) {
+		case 0:
+			lit = t.name + "{}"
+		case 1:
+			lit = fmt.Sprintf("%s{%d: %s}", t.name, g.pick(t.n), f.nonConstInt(1))
+		default:
+			lit = fmt.Sprintf("%s{%s}", t.name, f.nonConstInt(1))
+		}
+	} else {
+		switch g.pick(3) {
+		case 0:
+			lit = t.name + "{}"
+		default:
+			var es []string
+			for _, fl := range t.fields {
+				if !g.chance(35) {
+					continue
+				}
+				switch fl.t.k {
+				case tInt, tString, tBool:
+					es = append(es, fl.name+": "+f.expr(fl.t, 1, false))
+				case tArray:
+					es = append(es, fmt.Sprintf("%s: %s{%d: %s}", fl.name, fl.t.name, g.pick(fl.t.n), f.nonConstInt(0)))
+				case tStruct:
+					es = append(es, fl.name+": "+fl.t.name+"{}")
+				}
+			}
+			lit = t.name + "{" + strings.Join(es, ", ") + "}"
+		}
+	}
+	k := f.fresh("n")
+	if g.chance(50) {
+		f.line("%s, %s := %s, %s", v.name, k, lit, f.nonConstInt(1))
+	} else {
+		f.line("%s, %s := %s, %s", k, v.name, f.nonConstInt(1), lit)
+	}
+	f.line("emit(%d, %s)", g.pick(9), k)
+	f.declare(v)
+	// observe the whole value
+	f.line("emitb(%d, %s == %s{})", g.pick(9), v.name, t.name)
+	if t.k == tArray {
+		f.line("emit(%d, %s[0]+%s[%d]*3)", g.pick(9), v.name, v.name, t.n-1)
+	} else if hasField(t, g.tInt) {
+		f.line("emit(%d, %s.%s)", g.pick(9), v.name, fieldOf(g, t, g.tInt))
+	}
+}
+
+// fullLit: a struct literal with every scalar field non-zero
+func (f *fgen) fullLit(t *ty) string {
+	g := f.g
+	var es []string
+	for _, fl := range t.fields {
+		switch fl.t.k {
+		case tInt:
+			es = append(es, fmt.Sprintf("%s: %s(%d)", fl.name, fl.t.name, 1+g.pick(100)))
+		case tString:
+			es = append(es, fl.name+`: "in"`)
+		case tBool:
+			es = append(es, fl.name+": true")
+		case tArray:
+			es = append(es, fmt.Sprintf("%s: %s{%d, %d}", fl.name, fl.t.name, 1+g.pick(9), 1+g.pick(9)))
+		}
+	}
+	return t.name + "{" + strings.Join(es, ", ") + "}"
 }
 
 // stage 2: interfaces and methods, maps, deferred calls, closures over per-iteration variables
